@@ -360,3 +360,104 @@ theorem proxAvgEval_filter (isInf : ℝ → Bool) (ws vals : List ℝ) :
 end proxavg
 
 end Scico.FuncEval
+
+namespace Scico.FuncEval
+
+/-! ### `rel_res ≤ 2` -/
+section relres
+
+theorem sum_sq_nonneg (a : List ℝ) : 0 ≤ (a.map (fun x => x * x)).sum :=
+  List.sum_nonneg (sq_list_nonneg a)
+
+/-- Cauchy–Schwarz on lists of the same length: `(Σ a_i b_i)² ≤ (Σ a_i²)(Σ b_i²)` -/
+theorem sum_sub_sq_le : ∀ (a b : List ℝ), a.length = b.length →
+    (List.zipWith (· * ·) a b).sum ^ 2 ≤ (a.map (fun x => x * x)).sum * (b.map (fun x => x * x)).sum
+  | [], [], _ => by simp
+  | [], _ :: _, h => by simp at h
+  | _ :: _, [], h => by simp at h
+  | x :: a, y :: b, h => by
+    simp only [List.length_cons, Nat.add_right_cancel_iff] at h
+    have ih := sum_sub_sq_le a b h
+    have hA := sum_sq_nonneg a
+    have hB := sum_sq_nonneg b
+    simp only [List.zipWith_cons_cons, List.sum_cons, List.map_cons]
+    set A := (a.map (fun x => x * x)).sum
+    set B := (b.map (fun x => x * x)).sum
+    set C := (List.zipWith (· * ·) a b).sum
+    -- 2 C x y ≤ A y² + B x²
+    have hR : 0 ≤ A * y ^ 2 + B * x ^ 2 := by positivity
+    have hsq : (2 * C * x * y) ^ 2 ≤ (A * y ^ 2 + B * x ^ 2) ^ 2 := by
+      have h1 : (2 * C * x * y) ^ 2 = 4 * C ^ 2 * (x ^ 2 * y ^ 2) := by ring
+      have h2 : 4 * C ^ 2 * (x ^ 2 * y ^ 2) ≤ 4 * (A * B) * (x ^ 2 * y ^ 2) := by
+        have : 0 ≤ x ^ 2 * y ^ 2 := by positivity
+        nlinarith
+      nlinarith [sq_nonneg (A * y ^ 2 - B * x ^ 2)]
+    have hlin : 2 * C * x * y ≤ A * y ^ 2 + B * x ^ 2 := by
+      have := abs_le_of_sq_le_sq' hsq hR
+      exact this.2
+    nlinarith
+
+theorem sqrt_sum_sub_le (a b : List ℝ) (h : a.length = b.length) :
+    Real.sqrt ((List.zipWith (· - ·) b a).map (fun x => x * x)).sum
+      ≤ Real.sqrt (a.map (fun x => x * x)).sum + Real.sqrt (b.map (fun x => x * x)).sum := by
+  have hA := sum_sq_nonneg a
+  have hB := sum_sq_nonneg b
+  have hcs := sum_sub_sq_le a b h
+  -- Σ(b−a)² = A + B − 2C
+  have hexp : ∀ (a b : List ℝ), a.length = b.length →
+      ((List.zipWith (· - ·) b a).map (fun x => x * x)).sum
+        = (a.map (fun x => x * x)).sum + (b.map (fun x => x * x)).sum - 2 * (List.zipWith (· * ·) a b).sum := by
+    intro a
+    induction a with
+    | nil => intro b h; cases b <;> simp_all
+    | cons x a ih =>
+      intro b h
+      cases b with
+      | nil => simp at h
+      | cons y b =>
+        simp only [List.length_cons, Nat.add_right_cancel_iff] at h
+        simp only [List.zipWith_cons_cons, List.map_cons, List.sum_cons, ih b h]
+        ring
+  rw [hexp a b h]
+  set A := (a.map (fun x => x * x)).sum
+  set B := (b.map (fun x => x * x)).sum
+  set C := (List.zipWith (· * ·) a b).sum
+  have hsAB : Real.sqrt A * Real.sqrt B = Real.sqrt (A * B) := (Real.sqrt_mul hA B).symm
+  have hC : -C ≤ Real.sqrt (A * B) := by
+    have : |C| ≤ Real.sqrt (A * B) := by
+      rw [← Real.sqrt_sq_eq_abs]
+      exact Real.sqrt_le_sqrt hcs
+    exact (abs_le.mp this).1 |> fun h => by linarith
+  have hsum : 0 ≤ Real.sqrt A + Real.sqrt B := by positivity
+  rw [← Real.sqrt_sq hsum]
+  apply Real.sqrt_le_sqrt
+  have e : (Real.sqrt A + Real.sqrt B) ^ 2 = A + B + 2 * (Real.sqrt A * Real.sqrt B) := by
+    rw [add_sq, Real.sq_sqrt hA, Real.sq_sqrt hB]; ring
+  rw [e, hsAB]
+  linarith
+
+/-- **`rel_res ≤ 2`** for real arrays of the same shape (triangle inequality) -/
+theorem relRes_le_two (ax b : List ℝ) (h : ax.length = b.length) : relRes false ax b ≤ 2 := by
+  unfold relRes
+  simp only [sqmags, Bool.false_eq_true, if_false, HasSqrt.sqrt]
+  set na := Real.sqrt (ax.map (fun x => x * x)).sum
+  set nb := Real.sqrt (b.map (fun x => x * x)).sum
+  have hna : 0 ≤ na := Real.sqrt_nonneg _
+  have hnb : 0 ≤ nb := Real.sqrt_nonneg _
+  have htri := sqrt_sum_sub_le ax b h
+  split
+  · norm_num
+  · rename_i hz
+    have hm1 : na ≤ maxR nb na := by unfold maxR; split <;> linarith
+    have hm2 : nb ≤ maxR nb na := by unfold maxR; split <;> linarith
+    have hpos : 0 < maxR nb na := by
+      have h0 : 0 ≤ maxR nb na := le_trans hna hm1
+      rcases h0.lt_or_eq with h1 | h1
+      · exact h1
+      · exfalso; apply hz; simp [isZero, ← h1]
+    rw [div_le_iff₀ hpos]
+    linarith
+
+end relres
+
+end Scico.FuncEval
